@@ -32,7 +32,7 @@ RULE = ('each run = Manifest chain of depth 1-5 (1-2 Manifests per level, plain/
         'loaders; non-trivial = the chain is actually broken somewhere; distinct = distinct seam '
         'event-log digest')
 PLAN = {'quick': {'n': 8000, 'budget_s': 90, 'block': 40},
-        'thorough': {'n': 80000, 'budget_s': 900, 'block': 200}}
+        'thorough': {'n': 400000, 'budget_s': 2400, 'block': 200}}
 ASSUMPTIONS = ['the time-of-check/time-of-use window between hashing and parsing one Manifest is not part of the property']
 
 
